@@ -390,6 +390,9 @@ fn run_series(c: &mut Ctx) {
                         }
                     }
                     c.close("Series1::resampled_n", "every point lies on the piecewise-linear graph", class, worst, 0.0, tol);
+                    c.check("Series1::resampled_n", "abscissae stay inside the parent's domain and no ordinate is lost", class, rx[k - 1] <= x_hi && rx[0] >= x_lo && rs.y.iter().all(|v| v.is_finite()), || {
+                        format!("last abscissa {} vs x_max {x_hi}; NaN ordinates: {}", rx[k - 1], rs.y.iter().filter(|v| !v.is_finite()).count())
+                    });
                 }
             }
         }
@@ -408,7 +411,8 @@ fn run_series(c: &mut Ctx) {
     }
     // ---- level crossings (strictly increasing abscissae; level not equal to a flat segment)
     if !repeats {
-        let level = c.rng.range(-3.0, 3.0);
+        // a level in general position, or exactly one of the stored ordinates
+        let level = if c.rng.chance(0.35) { ys[c.rng.int(0, n - 1)] } else { c.rng.range(-3.0, 3.0) };
         let flat = (0..n - 1).any(|i| ys[i] == level && ys[i + 1] == level);
         if !flat {
             let r = guard(|| s.y_crossings(level));
@@ -418,7 +422,10 @@ fn run_series(c: &mut Ctx) {
                     c.check("Series1::y_crossings", "no-panic", class, false, || format!("{} {}", p.sig(), p.msg));
                 }
                 Ok(cr) => {
-                    let worst = cr.iter().map(|x| pl.at(*x).iter().map(|w| (w - level).abs()).fold(f64::INFINITY, f64::min)).fold(0.0, f64::max);
+                    // a crossing computed as x0 + (level - y0)/m may land one rounding error outside
+                    // the last knot: evaluate the model at the nearest abscissa of the domain
+                    let snap = |x: f64| if (x - x_lo).abs() <= 1e-9 * (1.0 + x_lo.abs()) { x_lo } else if (x - x_hi).abs() <= 1e-9 * (1.0 + x_hi.abs()) { x_hi } else { x };
+                    let worst = cr.iter().map(|x| pl.at(snap(*x)).iter().map(|w| (w - level).abs()).fold(f64::INFINITY, f64::min)).fold(0.0, f64::max);
                     c.close("Series1::y_crossings", "interpolant equals the level at every returned abscissa", class, worst, 0.0, 1e-7 * pl.yspan());
                     // every strict sign change between consecutive knots is represented
                     let mut all = true;
@@ -430,6 +437,15 @@ fn run_series(c: &mut Ctx) {
                         }
                     }
                     c.check("Series1::y_crossings", "every sign change is represented", class, all, || format!("level {level}: {} crossings", cr.len()));
+                    // every knot whose ordinate equals the level is an abscissa where the interpolant
+                    // equals the level
+                    let mut knots = true;
+                    for i in 0..n {
+                        if ys[i] == level {
+                            knots &= cr.iter().any(|x| (*x - xs[i]).abs() <= 1e-9 * (1.0 + xs[i].abs()));
+                        }
+                    }
+                    c.check("Series1::y_crossings", "every knot on the level is returned", class, knots, || format!("level {level} equals a stored ordinate that is not among the {} crossings", cr.len()));
                     c.check("Series1::y_crossings", "ascending", class, cr.windows(2).all(|w| w[0] <= w[1]), || format!("{cr:?}"));
                 }
             }
